@@ -1047,7 +1047,7 @@ def mon_C15(case):
             held.discard(h[4:])
         elif h.startswith("spoil "):
             _, cid, how = h.split()
-            if how != "cancelled":
+            if how != "cancelled":  # (latepoison spoils: the closure panics before any later interaction can run)
                 spoiled.add(cid)
     r = kvs(o)
     res = r.get("res", "")
@@ -1299,6 +1299,9 @@ def mon_C19(case):
         wmax = i["pool"] if i["pool"] != "-" else i["dflt"]
         if r["max"] != wmax:
             return [(0, f"pool section {i['pool']} (default {i['dflt']}) but max_size {r['max']}")]
+        wqm = i.get("qm", "-") if i.get("qm", "-") != "-" else "fifo"
+        if (r.get("qm") != wqm and i.get("qmobs") != "0") or r.get("wait") != i.get("wait", "-"):
+            return [(0, f"pool section (queue_mode {i.get('qm')}, wait timeout {i.get('wait')}) did not reach the pool: it has queue_mode {r.get('qm')}, wait {r.get('wait')}")]
         return []
     if fam == "conv":
         # field-wise: `there` carries the same fields, `back` equals the original
